@@ -105,13 +105,66 @@ func tailcallPrograms(r *rand.Rand, depths []int, withCapture bool) []*Program {
 	return ps
 }
 
+// special cases around "which calls are self tail calls": another closure instance of the same function
+// literal is not "self" (it has other free variables); a discarded self call and a returned self call in
+// the same function, taken in either order.
+func tailcallSpecials(depth int) []*Program {
+	var ps []*Program
+	add := func(form string, tail bool, st ...*Node) {
+		ps = append(ps, &Program{Stmts: st, Meta: map[string]interface{}{"form": form, "tail": tail, "depth": depth, "nacc": 0, "variadic": false,
+			"capture": false, "special": true}})
+	}
+	d := Int(int64(depth))
+	// a(n, next) tail-calls `next`, another instance of the same literal with a different captured k
+	add("other-instance", false,
+		Def("mk", Fn([]string{"k"}, false, Ret(Fn([]string{"n", "next"}, false, If(nil, Bin("<=", Id("n"), Int(0)), Blk(Ret(Id("k"))), nil),
+			Ret(Call(Id("next"), Bin("-", Id("n"), Int(1)), Id("next"))))))),
+		Def("a", Call(Id("mk"), Int(1))), Def("b", Call(Id("mk"), Int(2))), Def("r", Call(Id("a"), d, Id("b"))))
+	// every level creates a fresh instance mk(k+1) and tail-calls it
+	add("fresh-instance-each-level", false,
+		Def("mk", Fn([]string{"k"}, false, Ret(Fn([]string{"n", "acc"}, false, If(nil, Bin("<=", Id("n"), Int(0)), Blk(Ret(Id("acc"))), nil),
+			Ret(Call(Call(Id("mk"), Bin("+", Id("k"), Int(1))), Bin("-", Id("n"), Int(1)), Bin("+", Id("acc"), Id("k")))))))),
+		Def("r", Call(Call(Id("mk"), Int(1)), d, Int(0))))
+	// discarded self call first, returned self call later (and the other way round)
+	add("discard-then-return", true,
+		Def("f", Fn([]string{"n", "ret"}, false, If(nil, Bin("<=", Id("n"), Int(0)), Blk(Ret(Int(5))), nil),
+			If(nil, Id("ret"), Blk(Ret(Call(Id("f"), Bin("-", Id("n"), Int(1)), Bool(false)))), nil),
+			ExprS(Call(Id("f"), Bin("-", Id("n"), Int(1)), Bool(true))))),
+		Def("r", Call(Id("f"), d, Bool(false))))
+	add("return-then-discard", true,
+		Def("f", Fn([]string{"n", "ret"}, false, If(nil, Bin("<=", Id("n"), Int(0)), Blk(Ret(Int(5))), nil),
+			If(nil, Id("ret"), Blk(Ret(Call(Id("f"), Bin("-", Id("n"), Int(1)), Bool(false)))), nil),
+			ExprS(Call(Id("f"), Bin("-", Id("n"), Int(1)), Bool(true))))),
+		Def("r", Call(Id("f"), d, Bool(true))))
+	add("alternate-discard-return", true,
+		Def("f", Fn([]string{"n"}, false, If(nil, Bin("<=", Id("n"), Int(0)), Blk(Ret(Int(5))), nil),
+			If(nil, Bin("==", Bin("%", Id("n"), Int(2)), Int(0)), Blk(Ret(Call(Id("f"), Bin("-", Id("n"), Int(1))))), nil),
+			ExprS(Call(Id("f"), Bin("-", Id("n"), Int(1)))), Ret(nil))),
+		Def("r", Call(Id("f"), d)))
+	// a nested call of the same function from a frame whose result was discarded must not inherit the flag
+	add("discard-flag-not-inherited", false,
+		Def("f", Fn([]string{"n"}, false, If(nil, Bin("<=", Id("n"), Int(0)), Blk(Ret(Int(5))), nil),
+			If(nil, Bin("==", Id("n"), Int(1)), Blk(Ret(Bin("+", Call(Id("f"), Int(0)), Int(1)))), nil),
+			ExprS(Call(Id("f"), Bin("-", Id("n"), Int(1)))), Ret(nil))),
+		Def("g", Fn(nil, false, Def("x", Call(Id("f"), d)), Def("y", Call(Id("f"), Int(1))), Ret(Arr(Id("x"), Id("y"))))),
+		Def("r", Call(Id("g"))))
+	return ps
+}
+
 func init() {
 	families["tailcalls"] = func(seed int64, n int) []*Program {
-		// n selects the depth set: 0 -> model depths
-		r := rand.New(rand.NewSource(seed))
 		if n <= 0 {
-			return tailcallPrograms(r, []int{0, 1, 2, 3, 7, 12}, true)
+			r := rand.New(rand.NewSource(seed))
+			ps := tailcallPrograms(r, []int{0, 1, 2, 3, 7, 12}, true)
+			for _, d := range []int{0, 1, 2, 3, 4, 7} {
+				ps = append(ps, tailcallSpecials(d)...)
+			}
+			return ps
 		}
+		return families["tailcalls-deep"](seed, n)
+	}
+	families["tailcalls-deep"] = func(seed int64, n int) []*Program {
+		r := rand.New(rand.NewSource(seed))
 		return tailcallPrograms(r, []int{n}, n <= 5000)
 	}
 }
